@@ -251,6 +251,7 @@ type phase struct {
 	threads  [][]command // one command list per goroutine
 	keys     []string    // every key the phase may touch (for the quiescent EXISTS sweep)
 	yield    int
+	nolog    bool // focused stress: no lock log, so that the commands run back to back
 	watchdog time.Duration
 }
 
@@ -381,7 +382,7 @@ func genMulti(r *rng, nthreads, nops int) phase {
 		ops := []command{}
 		for i := 0; i < nops; i++ {
 			tok := fmt.Sprintf("v%d.%d", t, i)
-			switch r.intn(14) {
+			switch r.intn(16) {
 			case 0, 1, 2:
 				c := command{"MSET"}
 				for _, k := range subset(r, keys, 4) {
@@ -400,9 +401,9 @@ func genMulti(r *rng, nthreads, nops int) phase {
 				ops = append(ops, command{"SET", r.pick(keys), tok})
 			case 10:
 				ops = append(ops, command{"GET", r.pick(keys)})
-			case 11:
+			case 11, 12, 13:
 				ops = append(ops, command{"APPEND", r.pick(keys), "+" + itoa(t)})
-			case 12:
+			case 14:
 				ops = append(ops, command{"SETNX", r.pick(keys), tok})
 			default:
 				ops = append(ops, command{"TYPE", r.pick(keys)})
@@ -641,6 +642,13 @@ type record struct {
 
 type executor func(thread int, cmd [][]byte) string
 
+func gidOf(skip bool) uint64 {
+	if skip {
+		return 0
+	}
+	return memdb.VerifGoID()
+}
+
 func toBytes(c command) [][]byte {
 	b := make([][]byte, len(c))
 	for i, s := range c {
@@ -688,7 +696,7 @@ func runPhase(ph phase, outdir string, tcp bool) (status string, err error) {
 	var clock atomic.Uint64
 	recs := make([][]record, len(ph.threads)+1)
 	memdb.VerifLockTake()
-	memdb.VerifLockLog(true, ph.yield)
+	memdb.VerifLockLog(!ph.nolog, ph.yield)
 
 	var exec executor
 	var closeAll func()
@@ -704,13 +712,15 @@ func runPhase(ph phase, outdir string, tcp bool) (status string, err error) {
 	defer closeAll()
 
 	runOne := func(thread, slot, seq int, c command) {
-		memdb.VerifLockMark(seq)
+		if !ph.nolog {
+			memdb.VerifLockMark(seq)
+		}
 		now := time.Now()
 		inv := clock.Add(1)
 		out := exec(slot, toBytes(c))
 		res := clock.Add(1)
 		recs[slot] = append(recs[slot], record{thread: thread, seq: seq, inv: inv, res: res,
-			sec: now.Unix(), ms: now.UnixMilli(), args: c, reply: out, gid: memdb.VerifGoID()})
+			sec: now.Unix(), ms: now.UnixMilli(), args: c, reply: out, gid: gidOf(ph.nolog)})
 	}
 	for i, c := range ph.setup {
 		if c[0][0] == '@' {
@@ -1108,6 +1118,7 @@ func concCmd(args []string) error {
 			}
 		}
 		ph.yield = 3
+		ph.nolog = len(focus) > 0
 		ph.watchdog = 40 * time.Second
 		if tier == "thorough" {
 			ph.watchdog = 180 * time.Second
